@@ -136,6 +136,10 @@ func (r *registry) mkPay(kind, tok string) any {
 		return map[string]any(nil)
 	case "nilslice":
 		return []string(nil)
+	case "reslist":
+		// a payload that is a list of Results (what a batch node's post receives and
+		// may well hand on): to a non-batch node it is a value like any other
+		return []flyt.Result{flyt.NewResult("T:" + tok), flyt.NewResult(nil)}
 	case "result":
 		// a payload that is itself a flyt.Result (struct / plain nodes only: the
 		// framework must hand it on untouched)
@@ -155,6 +159,8 @@ func payDesc(kind, tok string) string {
 		return kind
 	case "result":
 		return "WR(" + tok + ")"
+	case "reslist":
+		return "[" + tok + " nil]"
 	}
 	return tok
 }
@@ -1012,13 +1018,26 @@ func (*zst3) Post(ctx context.Context, s *flyt.SharedStore, p, e any) (flyt.Acti
 	return zPost(3, s, p, e)
 }
 
-// flowWrap: a user type that embeds *flyt.Flow and overrides Post.
+// flowWrap: a user type that embeds *flyt.Flow and has lifecycle steps of its
+// own: Prep notes that the flow was entered, Post that it was left (both in the
+// store's trail) and decides the action. A flow is a node; this is one too.
 type flowWrap struct {
 	*flyt.Flow
+	id     int
 	action string
 }
 
+func (w *flowWrap) Prep(ctx context.Context, shared *flyt.SharedStore) (any, error) {
+	if shared != nil {
+		shared.Set("trail", shared.GetString("trail")+fmt.Sprintf("e%d;", w.id))
+	}
+	return w.Flow.Prep(ctx, shared)
+}
+
 func (w *flowWrap) Post(ctx context.Context, shared *flyt.SharedStore, prep, exec any) (flyt.Action, error) {
+	if shared != nil {
+		shared.Set("trail", shared.GetString("trail")+fmt.Sprintf("x%d;", w.id))
+	}
 	return flyt.Action(w.action), nil
 }
 
@@ -1523,7 +1542,7 @@ func (h *harness) build() {
 			}
 			h.nodes[i] = f
 			if n.Wrap != "" {
-				h.nodes[i] = &flowWrap{Flow: f, action: n.Wrap}
+				h.nodes[i] = &flowWrap{Flow: f, id: n.ID, action: n.Wrap}
 			}
 		default:
 			panic("bad node kind " + n.Kind)
